@@ -10,7 +10,7 @@ ASSUMPTIONS = [
     "(look-ups, Empty dispatch) is covered by the K-calc correspondence only",
 ]
 TRUSTED = ["pandas shift/add(fill_value=0) contracts as written on Series.shift / Series.add"]
-GENKW = dict(allow_delete=False, allow_dumps=False)
+GENKW = dict(allow_delete=True, allow_dumps=False)
 ORACLES = ["order_independence"]
 PROP = "C19"
 
